@@ -64,6 +64,41 @@ type Real struct {
 	// json-*: the document is not a file's top-level body but the body of a block `w` of a wrapper file:
 	// block = {"w": DOC}, block-array = {"w": [{}, DOC]} (the second block), labelled = {"w": {"k": DOC}}
 	Wrap string `json:"wrap,omitempty"`
+	// expanded: one extra dynamic block whose for_each collection is empty (it denotes no block at all)
+	Ghost *Ghost `json:"ghost,omitempty"`
+}
+
+// Ghost is a `dynamic "Type"` block with an empty for_each collection, written before the physical item
+// that starts at content[Pos] (Pos == len(content): at the end), with Labels label expressions (a
+// `labels = [...]` argument, absent when Labels == 0) and a content block.
+type Ghost struct {
+	Type   string `json:"type"`
+	Labels int    `json:"labels,omitempty"`
+	Pos    int    `json:"pos"`
+	Form   string `json:"form"` // list: for_each = [] | map: for_each = {}
+}
+
+func (g Ghost) String() string {
+	fe := "[]"
+	if g.Form == "map" {
+		fe = "{}"
+	}
+	return fmt.Sprintf("empty-dynamic(%s/%d for_each=%s)@%d", g.Type, g.Labels, fe, g.Pos)
+}
+
+func (g Ghost) text() string {
+	var sb strings.Builder
+	fe := "[]"
+	if g.Form == "map" {
+		fe = "{}"
+	}
+	fmt.Fprintf(&sb, "dynamic %q {\n  for_each = %s\n", g.Type, fe)
+	if g.Labels > 0 {
+		ls := []string{`"g"`, `"h"`, `"i"`}
+		fmt.Fprintf(&sb, "  labels = [%s]\n", strings.Join(ls[:g.Labels], ", "))
+	}
+	sb.WriteString("  content {\n    id = 99\n  }\n}\n")
+	return sb.String()
 }
 
 func (r Real) String() string {
@@ -71,6 +106,9 @@ func (r Real) String() string {
 	case "merged":
 		return fmt.Sprintf("merged(%v,%s)", r.Cuts, r.Syntax)
 	case "expanded":
+		if r.Ghost != nil {
+			return fmt.Sprintf("expanded(%v)+%s", r.Dynamic, *r.Ghost)
+		}
 		return fmt.Sprintf("expanded(%v)", r.Dynamic)
 	}
 	s := r.Kind
@@ -212,11 +250,35 @@ func blockRuns(content absconf.Body) (runOf []int, nruns int) {
 }
 
 func expandedText(content absconf.Body, dynamic []bool) (string, []int) {
+	s, g, _ := expandedTextGhost(content, dynamic, nil)
+	return s, g
+}
+
+// ghostFits: the position is the start of a physical item (not inside a run written as one dynamic block).
+func ghostFits(content absconf.Body, dynamic []bool, pos int) bool {
+	if pos <= 0 || pos >= len(content) {
+		return pos >= 0 && pos <= len(content)
+	}
+	runOf, _ := blockRuns(content)
+	return !(runOf[pos] >= 0 && runOf[pos] == runOf[pos-1] && dynamic[runOf[pos]])
+}
+
+func expandedTextGhost(content absconf.Body, dynamic []bool, ghost *Ghost) (string, []int, error) {
+	if ghost != nil && !ghostFits(content, dynamic, ghost.Pos) {
+		return "", nil, fmt.Errorf("%s: the position is not the start of a physical item", *ghost)
+	}
 	runOf, _ := blockRuns(content)
 	groups := make([]int, len(content))
 	var sb strings.Builder
 	phys := 0
-	for i := 0; i < len(content); i++ {
+	for i := 0; i <= len(content); i++ {
+		if ghost != nil && ghost.Pos == i {
+			sb.WriteString(ghost.text())
+			phys++
+		}
+		if i == len(content) {
+			break
+		}
 		it := content[i]
 		if it.IsAttr() || !dynamic[runOf[i]] {
 			sb.WriteString(absconf.Native(absconf.Body{it}))
@@ -256,7 +318,7 @@ func expandedText(content absconf.Body, dynamic []bool) (string, []int) {
 		phys++
 		i = j - 1
 	}
-	return sb.String(), groups
+	return sb.String(), groups, nil
 }
 
 func parseNative(src string) (hcl.Body, error) {
@@ -301,12 +363,20 @@ func realise(content absconf.Body, r Real) (hcl.Body, refbody.Model, []string, e
 		b, err := parseJSON(src)
 		return b, refbody.NewJSON(doc), []string{src}, err
 	case "expanded":
-		src, groups := expandedText(content, r.Dynamic)
+		src, groups, err := expandedTextGhost(content, r.Dynamic, r.Ghost)
+		if err != nil {
+			return nil, nil, nil, err
+		}
 		b, err := parseNative(src)
 		if err != nil {
 			return nil, nil, nil, err
 		}
-		return dynblock.Expand(b, evalCtx), refbody.NewNativeGrouped(content, groups), []string{src}, nil
+		var ghosts []refbody.Ghost
+		if r.Ghost != nil {
+			// the block denotes nothing: the model's logical content is the content without it
+			ghosts = []refbody.Ghost{{Type: r.Ghost.Type, Labels: r.Ghost.Labels}}
+		}
+		return dynblock.Expand(b, evalCtx), refbody.NewNativeGhosts(content, groups, ghosts), []string{src}, nil
 	case "merged":
 		var bodies []hcl.Body
 		var texts []string
@@ -483,7 +553,7 @@ func mismatch(got robs, r refbody.Result, countErrs bool) (string, string) {
 	if r.Errs > 0 && got.nerr == 0 {
 		return "error-missing", fmt.Sprintf("the reference demands an error (%d erroneous items) but none was reported", r.Errs)
 	}
-	if r.Errs == 0 && got.nerr > 0 {
+	if r.Errs == 0 && got.nerr > 0 && !r.ErrUnspec {
 		return "error-spurious", fmt.Sprintf("no item is erroneous but an error was reported: %s", got.diag())
 	}
 	if countErrs && got.nerr < r.Errs {
@@ -588,7 +658,9 @@ type runner struct {
 	twin hcl.Body
 	// realTag names the JSON "zero blocks" construct of the realisation, if any (suffix of every class)
 	realTag string
-	fails   map[string]*failure
+	// ghost: the empty-for_each dynamic block of the realisation, if any
+	ghost *Ghost
+	fails map[string]*failure
 	sig   sigAcc
 	// current schema
 	es  []Elem
@@ -609,7 +681,8 @@ func (r *runner) fail(op, clause, detail string, tags ...string) {
 		}
 		cl += "." + t
 	}
-	if r.realTag != "" {
+	if r.realTag != "" && !(r.ghost != nil && len(tags) > 0) {
+		// (a tag names one recorded defect of dynblock, whatever else the body holds: the class stays that defect's)
 		cl += "." + r.realTag
 	}
 	if _, ok := r.fails[cl]; ok {
@@ -983,6 +1056,16 @@ func (r *runner) remainder(rem hcl.Body, remM refbody.Model, remT hcl.Body, tags
 			comp = append(comp, Elem{name, "block", len(it.Labels)})
 		}
 	}
+	if g := r.ghost; g != nil {
+		// the empty dynamic block is an item of its type: consumed if the schema names the type as a block
+		// type, otherwise part of the complement schema (with the label count it is written for)
+		if blockTypeIn(r.es, ^uint32(0), g.Type) {
+			consumedBlocks = true
+		} else if !inSchema[g.Type] && !seen[g.Type] {
+			seen[g.Type] = true
+			comp = append(comp, Elem{g.Type, "block", g.Labels})
+		}
+	}
 	ja := observeJust(rem)
 	if cl, d := mismatch(ja, remM.JustAttributes(), false); cl != "" {
 		var extra []string
@@ -1087,6 +1170,10 @@ func runCase(d Data, kind string, content absconf.Body, real Real) (*runner, []s
 	r := &runner{kind: kind, body: body, model: model, content: content, fails: map[string]*failure{}}
 	if real.Deg != nil {
 		r.realTag = real.Deg.Tag()
+	}
+	if real.Ghost != nil {
+		r.ghost = real.Ghost
+		r.realTag = "dynamic-block-empty-for-each"
 	}
 	if real.Kind == "merged" && len(real.Cuts) == 1 {
 		tr := Real{Kind: "native"}
@@ -1364,6 +1451,81 @@ func realisations(content absconf.Body, thorough bool) []Real {
 	if !dupAttr(content) && !mixedArity(content) {
 		out = append(out, degenerateRealisations(content, thorough)...)
 	}
+	// expanded bodies with one dynamic block that generates nothing (appended last: identifiers above stay stable)
+	if !dupAttr(content) {
+		out = append(out, ghostRealisations(content, thorough)...)
+	}
+	return out
+}
+
+// ghostRealisations: dynblock-expanded bodies with ONE extra `dynamic "T"` block whose for_each is an empty
+// collection. T ranges over the block types x and y of the schema alphabet, so the block stands alone
+// (no other block of its type), or before / between / after static and generated blocks of its type.
+// Label expressions: as many as the blocks of type T in the content have (every label count that occurs);
+// for a type without blocks in the content 0 and 1 (quick, contents of 2 items: 0) -- schemas ask for the
+// type with 0, 1 and 2 labels, where the count differs the type is unspecified for that schema (refbody.Ghost).
+//
+// quick: contents of <= 2 items; the other blocks all static and all runs dynamic; `for_each = []` at every
+// physical position and `for_each = {}` at the end.
+// thorough: contents of <= 2 items: label counts 0..2 for absent types, every subset of runs dynamic, both
+// forms at every position; contents of 3 items: the quick selection. (Quick schema space, thorough: splits into 3.)
+func ghostRealisations(content absconf.Body, thorough bool) []Real {
+	full := thorough && len(content) <= 2
+	if len(content) > 2 && !thorough {
+		return nil
+	}
+	_, nruns := blockRuns(content)
+	var dyns [][]bool
+	dyns = append(dyns, make([]bool, nruns))
+	if full {
+		for mask := 1; mask < 1<<nruns; mask++ {
+			dyn := make([]bool, nruns)
+			for r := range dyn {
+				dyn[r] = mask&(1<<r) != 0
+			}
+			dyns = append(dyns, dyn)
+		}
+	} else if nruns > 0 {
+		dyn := make([]bool, nruns)
+		for r := range dyn {
+			dyn[r] = true
+		}
+		dyns = append(dyns, dyn)
+	}
+	var out []Real
+	for _, typ := range []string{"x", "y"} {
+		var arities []int
+		has := map[int]bool{}
+		for _, it := range content {
+			if !it.IsAttr() && it.Block == typ && !has[len(it.Labels)] {
+				has[len(it.Labels)] = true
+				arities = append(arities, len(it.Labels))
+			}
+		}
+		sort.Ints(arities)
+		switch {
+		case len(arities) > 0 && !full:
+		case full:
+			arities = []int{0, 1, 2}
+		case len(content) <= 1:
+			arities = []int{0, 1}
+		default:
+			arities = []int{0}
+		}
+		for _, labels := range arities {
+			for _, dyn := range dyns {
+				for pos := 0; pos <= len(content); pos++ {
+					if !ghostFits(content, dyn, pos) {
+						continue
+					}
+					out = append(out, Real{Kind: "expanded", Dynamic: dyn, Ghost: &Ghost{Type: typ, Labels: labels, Pos: pos, Form: "list"}})
+					if full || pos == len(content) {
+						out = append(out, Real{Kind: "expanded", Dynamic: dyn, Ghost: &Ghost{Type: typ, Labels: labels, Pos: pos, Form: "map"}})
+					}
+				}
+			}
+		}
+	}
 	return out
 }
 
@@ -1427,7 +1589,7 @@ func gen(tier string, emit func(engine.Case) bool) {
 		n++
 		for ri, r := range realisations(b, thorough) {
 			d := Data{Content: b, Real: r, Names: names, MaxSchema: maxSchema, Parts: parts, Swap: thorough}
-			if (r.Kind == "merged" && len(r.Cuts) == 3) || r.Deg != nil || r.Wrap != "" {
+			if (r.Kind == "merged" && len(r.Cuts) == 3) || r.Deg != nil || r.Wrap != "" || r.Ghost != nil {
 				// merges of three files, JSON zero-blocks encodings and wrapper blocks: the smaller schema space
 				d.Names, d.MaxSchema, d.Swap = "abxy", 3, false
 			}
@@ -1512,6 +1674,16 @@ func shrink(c engine.Case) (out []engine.Case) {
 				dyn[r] = all && any
 			}
 			nd.Real.Dynamic = dyn
+			if g := d.Real.Ghost; g != nil {
+				ng := *g
+				if ng.Pos > i {
+					ng.Pos--
+				}
+				if !ghostFits(nd.Content, dyn, ng.Pos) {
+					continue
+				}
+				nd.Real.Ghost = &ng
+			}
 		}
 		if d.Real.Deg != nil {
 			// the same kind of insertion (site, name, form) at any place of the smaller document
@@ -1564,6 +1736,9 @@ func countMode(tier string) {
 		if k == "merged" {
 			k = fmt.Sprintf("merged%d", len(d.Real.Cuts))
 		}
+		if d.Real.Ghost != nil {
+			k = "expanded+empty-dynamic"
+		}
 		per["cases "+k]++
 		return true
 	})
@@ -1581,13 +1756,14 @@ func main() {
 		Title:     "Schema-driven body processing accounts for every item exactly once",
 		Technique: "bounded exhaustive enumeration of logical contents x Body implementations x schemas x ordered schema splits; every Content / PartialContent / JustAttributes result compared with a set/sequence reference model, two-step vs one-step compared directly",
 		Rule: "logical contents: every sequence of <= 3 items over {a=, b=, x{}, x \"l\"{}, x \"l\" \"l\"{}, y{}} (thorough: + y \"l\"{}), each item identifiable (attribute value 10+i, block body `id = 20+i`, labels alternate k/m); sequences with a repeated attribute name only as merges that put the definitions in different files; blocks of one type with different label counts not as JSON. " +
-			"Realised as: native; JSON compact (one object, adjacent blocks joined) and JSON array-heavy (arrays at every level); JSON 'zero blocks' encodings (contents of <= 2 items, thorough <= 3): each of those two documents with ONE insertion of a property for the block type x or y whose value holds no block body -- null, [], {}, [{}], {\"k\": null}, {\"k\": []}, {\"k\": {}}, {\"k\": {\"m\": null}}, {\"k\": {\"m\": []}} at the end of the top-level body and null / [] at every other property position (array-form body: as a new element at every position, and the empty object {} as a new element at every position), so alone, before, between and after real blocks of the same type (repeated property names); and at every label level of every block property a label k with null, [], {}, {\"k\": null}, {\"k\": []} (as far as levels remain) at the end and null / [] at every other position, and {} at every position of an array-form label level (thorough: every form at every position, labels k and z); contents of <= 1 item (thorough <= 2) also one nesting level down, as the body of a block w of a wrapper file ({\"w\": DOC}, {\"w\": [{}, DOC]}, {\"w\": {\"k\": DOC}}), plain and with the body-level insertions; dynblock.Expand of the native body with all blocks static, with every maximal run of same-type blocks written as one dynamic block with a constant for_each, and with only the first run dynamic (thorough: every subset of runs); hcl.MergeBodies of ONE file (native or JSON; every step is also run on the file itself and must give the same observation), of the content cut into 2 consecutive files in every way incl. empty files with every file native or JSON, and cut into 3 consecutive files in every way (contents of <= 2 items: every syntax mix; 3 items: all-native for every cut and native/JSON/native with one item per file; thorough: every mix), so that files that contribute nothing to a step occur at every position. " +
+			"Realised as: native; JSON compact (one object, adjacent blocks joined) and JSON array-heavy (arrays at every level); JSON 'zero blocks' encodings (contents of <= 2 items, thorough <= 3): each of those two documents with ONE insertion of a property for the block type x or y whose value holds no block body -- null, [], {}, [{}], {\"k\": null}, {\"k\": []}, {\"k\": {}}, {\"k\": {\"m\": null}}, {\"k\": {\"m\": []}} at the end of the top-level body and null / [] at every other property position (array-form body: as a new element at every position, and the empty object {} as a new element at every position), so alone, before, between and after real blocks of the same type (repeated property names); and at every label level of every block property a label k with null, [], {}, {\"k\": null}, {\"k\": []} (as far as levels remain) at the end and null / [] at every other position, and {} at every position of an array-form label level (thorough: every form at every position, labels k and z); contents of <= 1 item (thorough <= 2) also one nesting level down, as the body of a block w of a wrapper file ({\"w\": DOC}, {\"w\": [{}, DOC]}, {\"w\": {\"k\": DOC}}), plain and with the body-level insertions; dynblock.Expand of the native body with all blocks static, with every maximal run of same-type blocks written as one dynamic block with a constant for_each, and with only the first run dynamic (thorough: every subset of runs); the expanded body (contents of <= 2 items, thorough <= 3; other blocks all static / all runs dynamic, thorough: every subset) with ONE extra dynamic block of type x or y whose for_each is an empty collection ([] before every physical item and at the end, {} at the end; thorough: both everywhere), written with a content block and with as many label expressions as the blocks of that type in the content have, for a type without blocks 0 and 1 (thorough 0..2) -- a block that generates nothing, alone of its type or before / between / after static and generated blocks of its type; hcl.MergeBodies of ONE file (native or JSON; every step is also run on the file itself and must give the same observation), of the content cut into 2 consecutive files in every way incl. empty files with every file native or JSON, and cut into 3 consecutive files in every way (contents of <= 2 items: every syntax mix; 3 items: all-native for every cut and native/JSON/native with one item per file; thorough: every mix), so that files that contribute nothing to a step occur at every position. " +
 			"x ALL schemas over the names a,b,x,y with <= 3 elements (attribute optional/required; block type with 0, 1 or 2 labels; names absent from a content play the part of unknown names) -- thorough: over a,b,x,y,z with <= 4 elements, z (never present) as optional/required attribute or block type, plus the kind swaps 'a requested as a block type' and 'x requested as an attribute' (merges of 3 files: the quick schema space) " +
 			"x EVERY ordered assignment of the schema elements to 2 parts, empty parts included (thorough: also every assignment onto 3 non-empty parts). Per schema: Content(schema). Per split: PartialContent(part 1) [, PartialContent(part 2)] and then on the remainder both Content(last part) and PartialContent(last part) followed, on the final remainder, by JustAttributes and by Content(complement schema = every name of the content outside the schema with its own kind and label count). Bodies are reused: the source body serves all schemas and splits of a case; every remainder is processed partially, exhaustively, partially again and exhaustively again with the same schema, and the final remainder answers JustAttributes before and after its exhaustive processing -- repeated calls must give identical observations (incl. the number of errors). " +
 			"Every result is compared with ref/refbody (L1-L3): attribute names and values, per-type block sequences with labels and block identity, error presence, number of errors >= number of erroneous items (not for expanded bodies, where one dynamic block stands for several items); the union of the steps is compared with the single step directly (L4); all implementations are held to the same reference on the same logical content (L5). A case = (content, realisation[, schema chunk]) and covers all its schemas and splits; the check keeps going after a failure and reports per case the failure class that is not yet a recorded finding.",
 		Assumptions: []string{
 			"the reference model ref/refbody is the specification's reading of spec.md 'Schema-driven Processing' / 'Partial Processing of Body Content' / 'Dynamic Attributes Processing' and json/spec.md 'Structural Elements'; where those are silent (label-count mismatch content, duplicate attribute content, null / empty label levels in JSON) the model marks the affected names unspecified and only error presence is compared",
 			"a JSON property named after a requested block type is 'a definition of zero or more blocks of that type' whatever its value (json/spec.md), so it is consumed by the step that requests the type: where the value's meaning is not specified (null, an empty label level) that step's own result is not compared, but the property is absent from the remaining body and every later step is compared as usual; [] below the label levels is specified as zero blocks and compared in every step",
+			"a dynamic block whose for_each collection is empty denotes no block: the logical content is the content without it, and the step that requests its type consumes it (returns nothing for it, it is gone from the remaining body); not compared: the type's part of a step whose label count differs from the number of label expressions written, and whether an exhaustive / dynamic-attributes step that still finds the block (its type was never requested) reports an error for it",
 			"expression evaluation of number literals and of the dynblock iterator object is trusted (used to identify attributes and blocks)",
 		},
 		Gen:    gen,
